@@ -962,6 +962,22 @@ func alignLarge(c *Ctx, o alignOpts, gen func(r *rand.Rand, mi int, alpha []byte
 					b[j] = alpha[r.IntN(len(alpha))]
 				}
 			}
+			// Before the valid call: five calls of the same (large) shape that PANIC on a symbol the matrix does not have
+			// and are recovered by the caller. Whatever a call takes for a table of this size — a slot, a pooled table,
+			// a lock — has to be given back on that path too; the valid call afterwards must run (a wait that never
+			// ends is pinned by the watchdog).
+			if (sh[0]+1)*(sh[1]+1) >= 1<<24 && i%2 == 0 {
+				bad := append([]byte{}, a...)
+				bad[0] = 0xFE
+				for j := 0; j < 5; j++ {
+					if j%2 == 0 {
+						catch(func() { align.Global(bad, b, m) })
+					} else {
+						catch(func() { align.Local(b, bad, m) })
+					}
+				}
+				k.Count("recovered_panics_on_large_tables", 5)
+			}
 			k.Input("len_a", sh[0])
 			k.Input("len_b", sh[1])
 			k.Input("cells", (sh[0]+1)*(sh[1]+1))
@@ -1138,6 +1154,10 @@ func alignEasy(c *Ctx, o alignOpts, mode int) {
 			x := randSeq(r, alpha, 64+r.IntN(77))
 			if r.IntN(5) == 0 {
 				x = randSeq(r, alpha, r.IntN(64))
+			}
+			if i%24 == 6 || i%24 == 13 || r.IntN(6) == 0 { // low-complexity: runs of one symbol, short tandem repeats
+				x = runSeq(r, alpha[:min(len(alpha), 3)], 40+r.IntN(100))
+				k.Count("low_complexity_cases", 1)
 			}
 			if i%8 == 3 || i%56 == 31 { // tables of 2^16 cells and more: identical and near-identical sequences of equal length
 				x = randSeq(r, alpha[:min(len(alpha), 4)], 256+r.IntN(150))
@@ -1555,6 +1575,14 @@ func alignThin(c *Ctx, o alignOpts, open float64) {
 }
 
 func easyPair(i int, x, tail []byte) (a, b []byte) {
+	// rotations: equal lengths, the same content shifted by one to three symbols (the diagonal is almost as good
+	// as the shifted alignment with one gap at each end)
+	switch i % 24 {
+	case 6:
+		return append(append([]byte{}, x...), tail...), append(append([]byte{}, tail...), x...)
+	case 13:
+		return append(append([]byte{}, tail...), x...), append(append([]byte{}, x...), tail...)
+	}
 	switch i % 6 {
 	case 0:
 		return append(append([]byte{}, x...), tail...), x
